@@ -24,7 +24,7 @@ var admBadVersions = []string{"", "v1.05", "v2.0", "1.7", "latest ", "v1.7\n"}
 var admBadLevels = []string{"", "Baseline", "restricted ", "bogus", "latest"}
 var nsPool = []string{"ns", "ns", "ns", "exempt-ns", "exempt-n", "Exempt-ns", "exempt-ns2", "", "exempt-user", "kube-system", "exempt-rc"}
 var userPool = []string{"alice", "alice", "alice", "exempt-user", "exempt-use", "EXEMPT-USER", "", "exempt-ns", "system:admin", "exempt-rc"}
-var rcPool = []string{"", "exempt-rc", "exempt-rc2", "Exempt-rc", "kata", "exempt-user", "exempt-ns"}
+var rcPool = []string{"", "exempt-rc", "exempt-rc2", "Exempt-rc", "kata", "gvisor", "exempt-user", "exempt-ns"}
 
 // exemptHeavy: exemption hits and near-misses are drawn often (C06, C07, C18); other
 // properties spend most of their budget on requests that reach evaluation.
@@ -89,6 +89,14 @@ func admCfg(r *rand.Rand, smallCap bool) adm.CfgSpec {
 		// no exemptions at all
 	case 1:
 		c.ExNS, c.ExUsers, c.ExRCs = []string{"exempt-user"}, []string{"exempt-ns", "exempt-rc"}, []string{"exempt-ns"} // cross-list values only
+	case 2, 3, 4:
+		// several entries per list, in any order
+		sh := func(l []string) []string {
+			out := append([]string{}, l...)
+			r.Shuffle(len(out), func(i, j int) { out[i], out[j] = out[j], out[i] })
+			return out[:1+r.Intn(len(out))]
+		}
+		c.ExNS, c.ExUsers, c.ExRCs = sh([]string{"kube-system", "exempt-ns", "zz-ns"}), sh([]string{"system:admin", "exempt-user", "a-user"}), sh([]string{"kata", "exempt-rc", "gvisor"})
 	default:
 		c.ExNS, c.ExUsers, c.ExRCs = []string{"kube-system", "exempt-ns"}, []string{"system:admin", "exempt-user"}, []string{"exempt-rc"}
 	}
@@ -274,6 +282,7 @@ func podScenario(r *rand.Rand, marker bool) scenario {
 	}
 	s.World.NSLabels = ls
 	s.World.NSErr = r.Intn(100) < 6
+	s.World.ErrKind = r.Intn(8)
 	s.LVs = candidateLVs([]map[string]string{ls}, s.Cfg.Defaults)
 	p := admPod(r, marker, "the-pod", s.LVs)
 	s.Req = adm.ReqSpec{Group: "", Resource: "pods", Namespace: pickNS(r), Name: "the-pod", User: pickUser(r), Op: "CREATE"}
@@ -291,7 +300,7 @@ func podScenario(r *rand.Rand, marker bool) scenario {
 	case x < 82:
 		s.Req.Subresource = pick(r, []string{"exec", "attach", "binding", "eviction", "log", "portforward", "proxy", "status"})
 	default:
-		s.Req.Subresource = pick(r, []string{"ephemeralcontainers", "resize", "unknown", "Status", "status/x", "exec2"})
+		s.Req.Subresource = pick(r, []string{"ephemeralcontainers", "resize", "unknown", "Status", "status/x", "exec2", "log/rotate", "proxy/"})
 	}
 	s.Req.Object = adm.ObjSpec{Kind: "pod", Pod: p}
 	kind := "pod"
@@ -353,6 +362,7 @@ func podScenario(r *rand.Rand, marker bool) scenario {
 		}
 		s.Tags = append(s.Tags, "old:"+oldKind)
 	}
+	s.Req.Wire = r.Intn(2) == 0
 	return s
 }
 
@@ -361,6 +371,7 @@ func controllerScenario(r *rand.Rand, marker bool) scenario {
 	ls := admLabels(r, 40)
 	s.World.NSLabels = ls
 	s.World.NSErr = r.Intn(100) < 6
+	s.World.ErrKind = r.Intn(8)
 	s.LVs = candidateLVs([]map[string]string{ls}, s.Cfg.Defaults)
 	p := admPod(r, marker, "tmpl", s.LVs)
 	p.Namespace = ""
@@ -397,6 +408,9 @@ func controllerScenario(r *rand.Rand, marker bool) scenario {
 	if r.Intn(100) < 60 {
 		s.Req.Object.Generation = int64(1 + r.Intn(4))
 	}
+	if r.Intn(100) < 50 {
+		s.Req.Object.CtlJunk = r.Intn(4) // suspended / paused / zero replicas: still judged by the template
+	}
 	if s.Req.Op == "UPDATE" && s.Req.Object.Kind == "controller" {
 		// an UPDATE carries the old controller object: unchanged template, changed template, or another generation
 		old := s.Req.Object
@@ -408,6 +422,7 @@ func controllerScenario(r *rand.Rand, marker bool) scenario {
 			updKind = "changed-template"
 		case 1:
 			old.Generation = s.Req.Object.Generation + 1
+			old.CtlJunk = r.Intn(4)
 			updKind = "unchanged-template+generation"
 		case 2:
 			if len(old.Pod.Spec.Containers) > 0 {
@@ -419,6 +434,7 @@ func controllerScenario(r *rand.Rand, marker bool) scenario {
 		s.Tags = append(s.Tags, "ctl-update:"+updKind)
 	}
 	s.Tags = append(s.Tags, "req:controller", "op:"+s.Req.Op, "object:"+kind)
+	s.Req.Wire = r.Intn(2) == 0
 	return s
 }
 
@@ -531,6 +547,7 @@ func namespaceScenario(r *rand.Rand, marker bool) scenario {
 	}
 	s.World.Pods = listedPods(r, marker, s.LVs, n)
 	s.World.ListErr = r.Intn(100) < 8
+	s.World.ErrKind = r.Intn(8)
 	if n > 0 && r.Intn(100) < 30 {
 		k := r.Intn(n + 1)
 		s.World.ExpireAfter = &k
@@ -540,6 +557,7 @@ func namespaceScenario(r *rand.Rand, marker bool) scenario {
 		s.Req.DeadlineIn = &d
 	}
 	s.Tags = append(s.Tags, "req:namespace", "op:"+s.Req.Op, "object:"+kind, fmt.Sprintf("listed:%d", n))
+	s.Req.Wire = r.Intn(2) == 0
 	return s
 }
 
